@@ -120,7 +120,8 @@ class SetModel:
         self.self_str = self_str
         self.name = self_str.split('::')[-1]
         self.tab = ScanTable(ctx, self_str, fn_path)
-        self.init, self.new_path = initial_state_of(ctx, self_str)
+        self.init_full, self.new_path = initial_state_of(ctx, self_str)
+        self.init = self.tab.proj(self.init_full)      # observer-only fields (counters, ...) are not decoder state
         self.kind = 'set1' if self.name == 'ScancodeSet1' else ('set2' if self.name == 'ScancodeSet2' else None)
         self.reach = self.tab.reachable(self.init)
         self.ctxs = {'': self.init}
@@ -183,16 +184,16 @@ def build_models(ctx, rep):
     # every way of obtaining a decoder (Default::default, ...) must give the same initial condition as new()
     for m in models:
         for path, st, sp in other_constructors(ctx, m.self_str, m.new_path):
-            ok = st == m.init
+            ok = st == m.init_full
             rep.ob('constructors agree with new()', 1, 1 if ok else 0)
             if not ok:
                 rep.finding('%s %s constructor %s initial-state' % (rep.prop, m.name, path.split('::')[-1]),
                             '%s (at %s) constructs a decoder in state %s, new() in state %s: byte streams decode differently from the start' % (
-                                path, sp, m.tab.state_str(st) if st else '<not constant>', m.tab.state_str(m.init)))
+                                path, sp, m.tab.state_str(m.tab.proj(st)) if st else '<not constant>', m.tab.state_str(m.init)))
     rep.analysed['scancode_impls'] = [m.self_str for m in models]
     for m in models:
         rep.analysed[m.name] = {
-            'fn': m.tab.fn_path, 'path_classes': len(m.tab.leaves), 'state_fields': m.tab.state_atoms,
+            'fn': m.tab.fn_path, 'path_classes': len(m.tab.leaves), 'state_fields': m.tab.state_atoms, 'observer_only_fields': m.tab.observer_fields,
             'initial_state': m.tab.state_str(m.init), 'reachable_states': sorted(m.tab.state_str(s) for s in m.reach),
             'contexts': {k or '(none)': m.tab.state_str(v) for k, v in m.ctxs.items()},
             'engine': m.tab.engine_stats,
